@@ -575,6 +575,16 @@ pub fn run(args: &Args) {
     let mut d2 = vec![];
     grow(&leaves(), &mut d2);
     exprs.extend(d2.iter().cloned());
+    // choice: every alternative list [x; y] and [w; x; y] where x is a depth-2 expression that can fail
+    // softly AFTER consuming input (does not restore the position itself) and y, w are leaves
+    let lv = leaves();
+    for x in d2.iter().filter(|x| !restoring(x) && consuming(x)) {
+        for y in lv.iter() {
+            exprs.push(Pexp::Or(vec![x.clone(), y.clone()]));
+            exprs.push(Pexp::Or(vec![lv[1].clone(), x.clone(), y.clone()]));
+            exprs.push(Pexp::Or(vec![x.clone(), x.clone(), y.clone()]));
+        }
+    }
     let n_exh = exprs.len();
     let n_rand = if args.thorough() { 12000 } else { 2500 };
     let mut seen = std::collections::BTreeSet::new();
@@ -672,6 +682,6 @@ pub fn run(args: &Args) {
     sum.write(
         &args.out,
         evaluations,
-        "parser expressions: all leaves and all single applications of every combinator to leaves (depth <= 2, exhaustive over the fixed parameter set) plus seeded random expressions of depth <= 3 (quick) / 4 (thorough); each run on all inputs over a 3-letter alphabet up to length 4 (quick) / 6 (thorough). Non-trivial = the expression produces at least two different kinds of result (ok/soft/fatal) across the inputs; distinct by expression text.",
+        "parser expressions: all leaves and all single applications of every combinator to leaves (depth <= 2, exhaustive over the fixed parameter set), every n-ary choice [x; y], [w; x; y], [x; x; y] with x a depth-2 expression that fails softly after consuming input and y a leaf, plus seeded random expressions of depth <= 3 (quick) / 4 (thorough); each run on all inputs over a 3-letter alphabet up to length 4 (quick) / 6 (thorough). Non-trivial = the expression produces at least two different kinds of result (ok/soft/fatal) across the inputs; distinct by expression text.",
     );
 }
